@@ -76,9 +76,12 @@ def build(x):
         c = C(dur)
         if l != -1:
             c.name = l
+        _ROOTS.append(c)
         return c
     cls = S if x[0] == "S" else P
-    return cls([build(k) for k in x[3:]], tag=mk_tag(int(x[1])), tempo=mk_tempo(int(x[2])))
+    r = cls([build(k) for k in x[3:]], tag=mk_tag(int(x[1])), tempo=mk_tempo(int(x[2])))
+    _ROOTS.append(r)
+    return r
 
 
 def snap(e):
@@ -193,6 +196,8 @@ def tie_of(c):
         )
     if c[0] == "always":
         return lambda a, b: True
+    if c[0] == "samekind":
+        return lambda a, b: isinstance(a, C) == isinstance(b, C)
     if c[0] == "samedur":
         return lambda a, b: a.duration == b.duration
     raise ValueError(c)
@@ -218,12 +223,18 @@ def T(n):
 
 def apply_op(t, op):
     """Returns (result event, extra observations)."""
+    r = apply_op1(t, op)
+    _ROOTS.append(r[0])
+    return r
+
+
+def apply_op1(t, op):
     k = op[0]
     if k == "child":
         i = int(op[1])
         if i < 0 or i >= len(t):
             raise IndexError(i)
-        r, _ = apply_op(t[i], op[2])
+        r, _ = apply_op1(t[i], op[2])
         if r is not t[i]:
             t[i] = r
         return t, []
@@ -262,6 +273,9 @@ def apply_op(t, op):
         return t.remove_by(keep_of(op[1])), []
     if k == "tie_by":
         return t.tie_by(tie_of(op[1]), event_type_to_examine=C, event_to_remove=op[2] in ("1", "true")), []
+    if k == "tie_all":
+        # no restriction to leaves: neighbouring containers are merged too (the survivor's duration is SET to the total)
+        return t.tie_by(tie_of(op[1]), event_to_remove=op[2] in ("1", "true")), []
     if k == "set_tag":
         t[mk_tag(int(op[1]))] = build(op[2])
         return t, []
@@ -274,7 +288,61 @@ def apply_op(t, op):
     raise ValueError(f"unknown op {op}")
 
 
+_ROOTS = []
+
+
+def scorch():
+    """edit every Duration object reachable from the events of the warm-up run IN PLACE (and the Duration objects the
+    library hands out for the same plain numbers): whatever the library keeps and re-uses across calls - a parser
+    cache, a pooled rest, a memo on an object that survives - is now wrong, and the real run below will show it"""
+    seen = set()
+
+    def walk(e):
+        if id(e) in seen:
+            return
+        seen.add(id(e))
+        if isinstance(e, C):
+            d = e.__dict__.get("_duration")
+            if d is not None and id(d) not in seen:
+                seen.add(id(d))
+                try:
+                    v = float(d.beat_count)
+                    for form in (v, int(v)) if v == int(v) else (v,):
+                        x = cp.abc.Duration.from_any(form)
+                        if id(x) not in seen:
+                            seen.add(id(x))
+                            x.add(1).multiply(3)
+                    d.add(1).multiply(3)
+                except Exception:  # noqa
+                    pass
+        elif isinstance(e, (S, P)):
+            for c in e:
+                walk(c)
+            try:
+                walk(e.tempo)
+            except Exception:  # noqa
+                pass
+
+    for r in _ROOTS:
+        for x in (r if isinstance(r, (list, tuple)) and not isinstance(r, (S, P)) else [r]):
+            walk(x)
+    _ROOTS.clear()
+
+
 def run(case):
+    """every case runs twice in this process: a warm-up whose objects are scorched afterwards, then the real run on fresh
+    objects (self-contained and replayable: state that leaks from one call into the next shows within one case)"""
+    if os.environ.get("VERIF_NO_WARMUP") != "1":
+        try:
+            run1(case)
+        except Exception:  # noqa
+            pass
+        scorch()
+    _ROOTS.clear()
+    return run1(case)
+
+
+def run1(case):
     _DURPOOL.clear()
     k = case[0]
     if k == "dur":
@@ -306,6 +374,7 @@ def run(case):
             parts = t.split_at(*[T(x) for x in case[3:]], ignore_invalid_split_point=ign)
         except Exception as e:  # noqa
             return err(e)
+        _ROOTS.append(parts)
         out = ["ok", ["parts"] + [snap(p) for p in parts]]
         if snap(t) != before:
             out.append(["recv-changed", snap(t)])
